@@ -75,6 +75,7 @@ func init() {
 		{"tokIntRegex", "tokIntRule", `^-?0*\d{1,19}\b`},
 		{"tokFloatRegex", "tokFloatRule", `^-?\d+(?:(?:\.\d+)?[eE][+-]?|\.)\d+\b`},
 		{"tokStringRegex", "tokStringRule", `^"(?:[^\\"]|\\(?:[abfnrtv\\"]|[0-7]{3}|x[[:xdigit:]]{2}|u[[:xdigit:]]{4}|U[[:xdigit:]]{8}))*"`},
+		{"tokIdRegex", "tokIdRule", `^_?[[:alpha:]]\w*\b`},
 	} {
 		r := r
 		addFact(fact{
